@@ -164,9 +164,10 @@ class BinningBase:
         rtol, atol : numpy tolerance parameters
         """
         if self.inconsecutive_allowed:
+            if rtol or atol:
+                # An answer within a tolerance is not remembered (nor taken from memory)
+                return is_consecutive(self.bins, rtol, atol)
             if self._consecutive is None:
-                if self._numpy_bins is not None:
-                    self._consecutive = True
                 self._consecutive = is_consecutive(self.bins, rtol, atol)
             return self._consecutive
         return True
